@@ -54,19 +54,26 @@ Qed.
 Section Strip.
 Variable T : tables.
 
-Lemma strip_inv f e cur w w3 x en :
-  Core w -> In x (w_models w) -> FilesInvM T w x -> Reach w (m_root x) e -> w_nodes w e = Some en -> Eff w e cur ->
+(* x need not be an entry of the model list: it only names a root (an element without element parent) and a file list *)
+Lemma strip_inv_r f e cur w w3 x en :
+  Core w -> (forall i p, Reach w (m_root x) i -> par w i p -> Reach w (m_root x) p /\ lists w p i) ->
+  FilesInvM T w x -> Reach w (m_root x) e -> w_nodes w e = Some en -> Eff w e cur ->
   (n_files en <> [] \/ forall p pn, n_parent en = PElem p -> w_nodes w p = Some pn -> split_ok T pn) ->
   (e = m_root x -> set_remove f cur <> []) ->
   Stripped f e cur w w3 -> FilesInvM T w3 x.
 Proof.
   intros C Hx FI Hre Hen Hcur Hsplit Hroot S.
+  assert (forall i a, Reach w (m_root x) i -> AncS w a i -> Reach w (m_root x) a) as RAncs.
+  { intros i a Hr Ha. induction Ha as [|i p Hp Ha IH]; auto. apply IH. apply (Hx i p); auto. }
+  assert (forall i s, Reach w (m_root x) i -> Eff w i s -> incl s (m_files x)) as EIncl.
+  { intros i s Hr He. destruct (Eff_owner _ _ _ He) as (a & n & Ha & Hn & <- & _).
+    apply (fi_sub _ _ _ FI a n); auto. eapply RAncs; eauto. }
   pose proof (stripped_under _ _ _ _ _ _ S Hre) as U.
   assert (Core w3) as C3 by (eapply under_core; eauto).
   pose proof (fun i => proj1 (under_reach _ _ _ (m_root x) i U)) as RB.
   assert (m_files x <> []) as Hmf.
   { pose proof (Eff_nonempty _ _ _ Hcur) as Hne. intros E.
-    pose proof (Eff_incl_files T _ _ _ _ C Hx FI Hre Hcur) as Hi. rewrite E in Hi.
+    pose proof (EIncl _ _ Hre Hcur) as Hi. rewrite E in Hi.
     destruct cur as [|g l]; [congruence|]. apply (Hi g). left. reflexivity. }
   (* the parent of an element below e (other than e) is below e; the parent of e is not *)
   assert (forall i p, Reach w e i -> i <> e -> par w i p -> Reach w e p) as SubPar.
@@ -76,7 +83,7 @@ Proof.
   { intros p Hp Hr. eapply ancs_par_irrefl; eauto; [apply (c_depth _ C); exists en; auto|].
     apply reach_ancs_root; auto. }
   assert (forall i p, Reach w (m_root x) i -> ~ Reach w e i -> par w i p -> ~ Reach w e p) as OutPar.
-  { intros i p Hri Hi Hp Hr. apply Hi. destruct (reach_par _ _ _ _ C Hx Hri Hp) as (_ & Hl). eapply R_kid; eauto. }
+  { intros i p Hri Hi Hp Hr. apply Hi. destruct (Hx _ _ Hri Hp) as (_ & Hl). eapply R_kid; eauto. }
   (* nodes of w3 *)
   assert (forall i n, w_nodes w i = Some n -> exists fs, w_nodes w3 i = Some (set_files n fs) /\
             (i = e -> fs = set_remove f cur) /\ (i <> e -> Reach w e i -> fs = set_remove f (n_files n)) /\
@@ -89,7 +96,7 @@ Proof.
     - destruct (ND _ _ Hn) as (fs & H3 & _ & _ & Ho). rewrite (Ho Hout) in H3.
       assert (par w i p) as Hpar by (exists n; auto).
       eapply Eff_up; eauto. apply IH.
-      + eapply reach_par; eauto.
+      + apply (Hx _ _ ltac:(eassumption) ltac:(eassumption)).
       + eapply OutPar; eauto. }
   (* the parent of e *)
   assert (forall p, n_parent en = PElem p -> exists sp, Eff w p sp /\ incl cur sp /\ Eff w3 p sp) as ParE.
@@ -101,7 +108,7 @@ Proof.
       - assert (cur = n_files en) as -> by (eapply Eff_local_inv; eauto; congruence).
         eapply (fi_par _ _ _ FI e en p); eauto. congruence. }
     exists sp. split; auto. split; auto. apply E1; auto.
-    all: try (eapply reach_par; eauto). all: try (apply ParOut; exact Hpar). }
+    all: try (apply (Hx _ _ ltac:(eassumption) ltac:(eassumption))). all: try (apply ParOut; exact Hpar). }
   (* E2: inside the subtree the effective sets lose at most f *)
   assert (forall i, Reach w e i -> forall s, Eff w i s -> exists s', Eff w3 i s' /\ incl (set_remove f s) s') as E2.
   { assert (forall s, Eff w e s -> exists s', Eff w3 e s' /\ incl (set_remove f s) s') as Base.
@@ -138,7 +145,7 @@ Proof.
     intros i n3 Hr H3. apply RB in Hr. destruct (stripped_node _ _ _ _ _ _ _ S H3) as (n & Hn & _).
     destruct (ND _ _ Hn) as (fs & H3' & He & Hin & Hout). rewrite H3 in H3'. injection H3' as ->. cbn.
     pose proof (fi_sub _ _ _ FI i n Hr Hn) as Hsub.
-    pose proof (Eff_incl_files T _ _ _ _ C Hx FI Hre Hcur) as Hcsub.
+    pose proof (EIncl _ _ Hre Hcur) as Hcsub.
     destruct (N.eq_dec i e) as [Eq|Hne].
     + rewrite (He Eq). eapply incl_tran; [apply set_remove_incl|auto].
     + destruct (reach_dec w e i C) as [Hs|Hs].
@@ -159,7 +166,7 @@ Proof.
         destruct (E2 p (SubPar _ _ Hs Hnee Hpar) _ Hsp) as (sp' & Hsp' & Hi').
         exists sp'. split; auto. eapply incl_tran; [apply set_remove_mono; eauto|auto].
       * rewrite (Hout Hs) in *. destruct (fi_par _ _ _ FI i n p Hr Hn Hne3 Hp3) as (sp & Hsp & Hi).
-        exists sp. split; auto. apply E1; auto; [eapply reach_par; eauto | eapply OutPar; eauto].
+        exists sp. split; auto. apply E1; auto; [apply (Hx _ _ ltac:(eassumption) ltac:(eassumption)) | eapply OutPar; eauto].
   - (* (c) *)
     intros i n3 p pn3 Hr H3 Hne3 Hp3 Hpn3. apply RB in Hr. destruct (stripped_node _ _ _ _ _ _ _ S H3) as (n & Hn & _).
     destruct (stripped_node _ _ _ _ _ _ _ S Hpn3) as (pn & Hpn & Epn).
@@ -176,6 +183,15 @@ Proof.
     destruct (reach_dec w e i C) as [Hin|Hout].
     + destruct (E2 i Hin _ Hs) as (s' & Hs' & _). eauto.
     + exists s. apply E1; auto.
+Qed.
+
+Lemma strip_inv f e cur w w3 x en :
+  Core w -> In x (w_models w) -> FilesInvM T w x -> Reach w (m_root x) e -> w_nodes w e = Some en -> Eff w e cur ->
+  (n_files en <> [] \/ forall p pn, n_parent en = PElem p -> w_nodes w p = Some pn -> split_ok T pn) ->
+  (e = m_root x -> set_remove f cur <> []) ->
+  Stripped f e cur w w3 -> FilesInvM T w3 x.
+Proof.
+  intros C Hx. apply strip_inv_r; auto. intros i p Hr Hp. eapply reach_par; eauto.
 Qed.
 
 End Strip.
